@@ -213,9 +213,70 @@ struct C10<'a> {
     frozen_seen: u64,
     /// a pass ran since the last restart (store caches may hold rows that are deleted by now)
     warm: bool,
+    /// this case contains a reorganisation whose fork point lies below the frozen height (known
+    /// finding F21: the freezer is never truncated): `Some(description)`; from then on every oracle
+    /// failure of the case is reported under the single class `deep-reorg-below-frozen-height`
+    deep: Option<String>,
+}
+
+pub const DEEP_CLASS: &str = "deep-reorg-below-frozen-height";
+
+/// every oracle failure of this module; after a reorg below the frozen height (F21) all failures of
+/// the case — the wrong transactions themselves and the pairwise before/after artifacts of the reorg
+/// (the same cellbase now sits in another block) — are one class
+fn fail(out: &mut Out, deep: &Option<String>, class: &str, detail: &str) {
+    match deep {
+        Some(d) => out.oracle_fail(DEEP_CLASS, &format!("[{}] {}: {}", d, class, detail)),
+        None => out.oracle_fail(class, detail),
+    }
 }
 
 impl C10<'_> {
+    /// a `block` op: apply it, and detect a reorganisation whose fork point (the common ancestor of
+    /// the old and the new tip) lies below the last frozen block
+    fn apply_block(&mut self, line: &str) {
+        let old_tip = self.ex.tip_id();
+        self.ex.apply(line);
+        self.note_reorg(old_tip);
+    }
+
+    /// generator side of `apply_block` (`Gen::build` emits its lines through the C02 executor)
+    fn build(&mut self, g: &mut Gen, rng: &mut Rng, parent: u64, busy: bool) -> u64 {
+        let old_tip = self.ex.tip_id();
+        let id = g.build(&mut self.ex, rng, parent, busy);
+        self.note_reorg(old_tip);
+        id
+    }
+
+    fn note_reorg(&mut self, old_tip: u64) {
+        let new_tip = self.ex.tip_id();
+        if new_tip == old_tip || self.ex.ablocks.get(&new_tip).map(|b| b.parent) == Some(old_tip) {
+            return;
+        }
+        // walk both tips back to the common ancestor
+        let (mut a, mut b) = (old_tip, new_tip);
+        let num = |ex: &Exec, x: u64| ex.ablocks.get(&x).map(|y| y.number).unwrap_or(0);
+        while a != b {
+            if num(&self.ex, a) >= num(&self.ex, b) && a != 0 {
+                a = self.ex.ablocks[&a].parent;
+            } else if b != 0 {
+                b = self.ex.ablocks[&b].parent;
+            } else {
+                break;
+            }
+        }
+        let fork = num(&self.ex, a);
+        let frozen = self.ex.node.as_ref().and_then(|n| n.store().freezer().map(|f| f.number())).unwrap_or(0);
+        self.ex.out.count("reorg");
+        // heights 1 .. frozen-1 are in the freezer: the reorg replaces frozen heights iff fork + 1 < frozen
+        if frozen > 1 && fork + 1 < frozen {
+            self.ex.out.count("reorg_below_frozen_height");
+            if self.deep.is_none() {
+                self.deep = Some(format!("reorg to b{} forks at height {} below freezer.number {}", new_tip, fork, frozen));
+            }
+        }
+    }
+
     fn main_keys(&self) -> Vec<String> {
         // keys whose subject is on the main chain now
         let store = self.ex.node.as_ref().unwrap().store();
@@ -243,7 +304,7 @@ impl C10<'_> {
         let subjects: std::collections::HashSet<String> = self.main_keys().into_iter().collect();
         let frozen = self.ex.node.as_ref().unwrap().store().freezer().map(|f| f.number()).unwrap_or(0);
         if let Some(w) = exact.get("!wrong:all") {
-            self.ex.out.oracle_fail("answer-has-another-blocks-content", &format!("({}) {}", when, w));
+            fail(&mut *self.ex.out, &self.deep, "answer-has-another-blocks-content", &format!("({}) {}", when, w));
         }
         for (k, v) in exact {
             let (acc, subj) = k.split_once(':').unwrap();
@@ -264,7 +325,7 @@ impl C10<'_> {
                             self.baseline.insert(k.clone(), v.clone());
                         }
                         Some(old) if old != v => {
-                            self.ex.out.oracle_fail(&format!("side-block-answer-changed:{}", acc), &format!("({}) {} before `{}` now `{}` (header row still present)", when, k, old, v));
+                            fail(&mut *self.ex.out, &self.deep, &format!("side-block-answer-changed:{}", acc), &format!("({}) {} before `{}` now `{}` (header row still present)", when, k, old, v));
                         }
                         _ => {}
                     }
@@ -280,11 +341,11 @@ impl C10<'_> {
                     // from the store caches, which outlive deletes: not judged here)
                     let n = self.ex.ablocks[&id].number;
                     if n >= frozen {
-                        self.ex.out.oracle_fail("side-block-removed-above-frozen-height", &format!("{} at height {} freezer.number {}", subj, n, frozen));
+                        fail(&mut *self.ex.out, &self.deep, "side-block-removed-above-frozen-height", &format!("{} at height {} freezer.number {}", subj, n, frozen));
                     }
                     let empty = v == "none" || v.starts_with("0/");
                     if !empty {
-                        self.ex.out.oracle_fail(&format!("side-block-partially-removed:{}", acc), &format!("{} answers `{}` without a header row", k, v));
+                        fail(&mut *self.ex.out, &self.deep, &format!("side-block-partially-removed:{}", acc), &format!("{} answers `{}` without a header row", k, v));
                     }
                 }
                 continue;
@@ -298,7 +359,7 @@ impl C10<'_> {
                     // the accessors that read the kv rows only before the repair of F18
                     let part = PART.contains(&acc);
                     let class = if part { format!("frozen-block-part-accessor-changed:{}", acc.trim_start_matches("data_loader.")) } else { format!("main-chain-answer-changed:{}", acc) };
-                    self.ex.out.oracle_fail(&class, &format!("({}) {} before `{}` now `{}`", when, k, old, v));
+                    fail(&mut *self.ex.out, &self.deep, &class, &format!("({}) {} before `{}` now `{}`", when, k, old, v));
                 }
                 _ => {}
             }
@@ -315,7 +376,7 @@ impl C10<'_> {
                 } else {
                     format!("main-chain-answer-changed:{}", acc)
                 };
-                self.ex.out.oracle_fail(&class, &format!("({}) {} answers `{}` for a main-chain block", when, k, v));
+                fail(&mut *self.ex.out, &self.deep, &class, &format!("({}) {} answers `{}` for a main-chain block", when, k, v));
             }
         }
     }
@@ -342,7 +403,7 @@ impl C10<'_> {
                         format!("err {}", after)
                     }
                     Err(_) => {
-                        self.ex.out.oracle_fail("freeze-pass-panics", &format!("Shared::freeze panicked (freezer.number {} tip {} epoch {})", before, tip.number(), tip.epoch()));
+                        fail(&mut *self.ex.out, &self.deep, "freeze-pass-panics", &format!("Shared::freeze panicked (freezer.number {} tip {} epoch {})", before, tip.number(), tip.epoch()));
                         self.ex.out.count("freeze_panic");
                         "panic".to_string()
                     }
@@ -350,14 +411,14 @@ impl C10<'_> {
                 // only old blocks move: strictly below the last block of epoch cur-2, contiguous, at most the limit
                 let store = node.store();
                 if after < before {
-                    self.ex.out.oracle_fail("freezer-number-decreased", &format!("{} -> {}", before, after));
+                    fail(&mut *self.ex.out, &self.deep, "freezer-number-decreased", &format!("{} -> {}", before, after));
                 }
                 if after > before {
                     let cur = tip.epoch().number();
                     // first block of epoch cur-1 is at epoch_len*(cur-1); its parent is the limit block
                     let limit = self.ex.cfg.epoch_len * (cur.saturating_sub(1)) - 1;
                     if cur <= 2 || after > limit {
-                        self.ex.out.oracle_fail("froze-too-recent-blocks", &format!("freezer.number {} but threshold block {} (tip epoch {})", after, limit, cur));
+                        fail(&mut *self.ex.out, &self.deep, "froze-too-recent-blocks", &format!("freezer.number {} but threshold block {} (tip epoch {})", after, limit, cur));
                     }
                     for n in before.max(1)..after {
                         let ok = store.freezer().unwrap().retrieve(n).ok().flatten().map(|raw| {
@@ -365,7 +426,7 @@ impl C10<'_> {
                             blk.map(|b| Some(b.hash()) == store.get_block_hash(n)).unwrap_or(false)
                         });
                         if ok != Some(true) {
-                            self.ex.out.oracle_fail("frozen-item-is-not-main-chain-block", &format!("height {}", n));
+                            fail(&mut *self.ex.out, &self.deep, "frozen-item-is-not-main-chain-block", &format!("height {}", n));
                         }
                     }
                     self.ex.out.count("freeze_moved_blocks");
@@ -374,7 +435,7 @@ impl C10<'_> {
                 self.warm = true;
                 let (_, exact) = eval(&self.ex);
                 if !cold && exact.get("live-cells:all").cloned() != cells_before {
-                    self.ex.out.oracle_fail("chain-view-changed-by-freeze", "live cells / indexes / records dump differs across the freeze pass");
+                    fail(&mut *self.ex.out, &self.deep, "chain-view-changed-by-freeze", "live cells / indexes / records dump differs across the freeze pass");
                 }
                 self.check(&exact, if cold { "after-freeze-caches-not-primed" } else { "after-freeze-warm" });
                 self.ex.out.op(line, &ans);
@@ -385,7 +446,7 @@ impl C10<'_> {
                 self.warm = false;
                 let n = self.ex.node.as_ref().unwrap().store().freezer().map(|f| f.number()).unwrap_or(0);
                 if n < self.frozen_seen {
-                    self.ex.out.oracle_fail("freezer-lost-blocks-over-restart", &format!("{} -> {}", self.frozen_seen, n));
+                    fail(&mut *self.ex.out, &self.deep, "freezer-lost-blocks-over-restart", &format!("{} -> {}", self.frozen_seen, n));
                 }
                 self.ex.out.op(line, &format!("ok {}", n));
                 self.ex.out.count("restart");
@@ -399,14 +460,14 @@ impl C10<'_> {
                         if id.starts_with('b') {
                             let c: Vec<char> = f.chars().collect();
                             if c[1] == '!' || c[1] == 'P' {
-                                self.ex.out.oracle_fail("get_block-by-hash-returns-other-block", &format!("{} {} (a stored block whose height is below freezer.number is answered with the frozen main-chain block of that height)", id, f));
+                                fail(&mut *self.ex.out, &self.deep, "get_block-by-hash-returns-other-block", &format!("{} {} (a stored block whose height is below freezer.number is answered with the frozen main-chain block of that height)", id, f));
                             }
                             if c[0] == '0' && *c.last().unwrap() == 'm' {
-                                self.ex.out.oracle_fail("main-chain-header-missing", id);
+                                fail(&mut *self.ex.out, &self.deep, "main-chain-header-missing", id);
                             }
                             // raw COLUMN_BLOCK_HEADER row (third char from the end)
                             if c[c.len() - 3] == '0' && *c.last().unwrap() == 'm' {
-                                self.ex.out.oracle_fail("main-chain-header-missing", &format!("{} raw row", id));
+                                fail(&mut *self.ex.out, &self.deep, "main-chain-header-missing", &format!("{} raw row", id));
                             }
                         }
                     }
@@ -418,6 +479,7 @@ impl C10<'_> {
                 self.crash_freeze();
                 self.ex.out.op(line, "ok");
             }
+            "block" => self.apply_block(line),
             _ => self.ex.apply(line),
         }
     }
@@ -558,11 +620,11 @@ impl C10<'_> {
                 let (_, exact) = eval(&self.ex);
                 let n_after_crash = self.ex.node.as_ref().unwrap().store().freezer().map(|f| f.number()).unwrap_or(0);
                 if n_after_crash < frozen_before {
-                    self.ex.out.oracle_fail("freezer-lost-blocks-after-crash", &format!("{} -> {} (crash {} write {})", frozen_before, n_after_crash, mode, k - c0));
+                    fail(&mut *self.ex.out, &self.deep, "freezer-lost-blocks-after-crash", &format!("{} -> {} (crash {} write {})", frozen_before, n_after_crash, mode, k - c0));
                 }
                 let subjects: std::collections::HashSet<String> = self.main_keys().into_iter().collect();
                 if let Some(w) = exact.get("!wrong:all") {
-                    self.ex.out.oracle_fail("answer-has-another-blocks-content", &format!("(crash {} write {} of the pass) {}", mode, k - c0, w));
+                    fail(&mut *self.ex.out, &self.deep, "answer-has-another-blocks-content", &format!("(crash {} write {} of the pass) {}", mode, k - c0, w));
                 }
                 for (key, v) in &exact {
                     let (acc, subj) = key.split_once(':').unwrap();
@@ -573,7 +635,7 @@ impl C10<'_> {
                         if old != v {
                             let part = ["get_block_body", "get_block_txs_hashes", "get_cellbase", "get_block_uncles", "get_block_proposal_txs_ids", "get_block_extension", "get_packed_block", "data_loader.get_block_extension"].contains(&acc);
                             let class = if part { format!("frozen-block-part-accessor-changed:{}", acc.trim_start_matches("data_loader.")) } else { format!("main-chain-answer-changed-after-crash:{}", acc) };
-                            self.ex.out.oracle_fail(&class, &format!("(crash {} write {} of the pass) {} before `{}` now `{}`", mode, k - c0, key, old, v));
+                            fail(&mut *self.ex.out, &self.deep, &class, &format!("(crash {} write {} of the pass) {} before `{}` now `{}`", mode, k - c0, key, old, v));
                         }
                     }
                 }
@@ -586,17 +648,17 @@ impl C10<'_> {
                     let r = catch_unwind(AssertUnwindSafe(|| shared.verif_freeze_once()));
                     let n2 = node.store().freezer().map(|f| f.number()).unwrap_or(0);
                     if !matches!(r, Ok(Ok(()))) || n2 != final_number {
-                        self.ex.out.oracle_fail("crash-recovery-diverges", &format!("crash {} write {}: next pass {:?} ends at freezer.number {} (crash-free: {})", mode, k - c0, r.map(|x| x.is_ok()).ok(), n2, final_number));
+                        fail(&mut *self.ex.out, &self.deep, "crash-recovery-diverges", &format!("crash {} write {}: next pass {:?} ends at freezer.number {} (crash-free: {})", mode, k - c0, r.map(|x| x.is_ok()).ok(), n2, final_number));
                     }
                     let (_, exact2) = eval(&self.ex);
                     if let Some(w) = exact2.get("!wrong:all") {
-                        self.ex.out.oracle_fail("answer-has-another-blocks-content", &format!("(after recovery pass) {}", w));
+                        fail(&mut *self.ex.out, &self.deep, "answer-has-another-blocks-content", &format!("(after recovery pass) {}", w));
                     }
                     for key in ["get_block", "get_block_header", "get_packed_block_header", "get_transaction", "get_transaction_with_info", "get_transaction_info", "get_ancestor", "get_block_body", "get_block_txs_hashes", "get_cellbase", "get_block_uncles", "get_block_proposal_txs_ids", "get_block_extension", "get_packed_block", "data_loader.get_block_extension"] {
                         for (kk, v) in exact2.iter().filter(|(kk, _)| kk.starts_with(&format!("{}:", key))) {
                             let subj = kk.split_once(':').unwrap().1;
                             if subjects.contains(subj) && base_exact.get(kk).map(|o| o != v).unwrap_or(false) {
-                                self.ex.out.oracle_fail(&format!("main-chain-answer-changed-after-crash:{}", key), &format!("(after recovery pass) {}", kk));
+                                fail(&mut *self.ex.out, &self.deep, &format!("main-chain-answer-changed-after-crash:{}", key), &format!("(after recovery pass) {}", kk));
                             }
                         }
                     }
@@ -620,6 +682,7 @@ fn gen_case(c: &mut C10, rng: &mut Rng) {
     c.baseline.clear();
     c.frozen_seen = 0;
     c.warm = false;
+    c.deep = None;
     c.ex.begin_case(&format!("freeze l={} w={}.{} g={}", l, w.0, w.1, gcells));
     let cfg = crate::node::NodeCfg { epoch_len: l, window: w, genesis_cells: gcells, with_pool: false, ..Default::default() };
     c.apply(&format!("cfg {} {} {} {}", l, w.0, w.1, gcells));
@@ -649,13 +712,13 @@ fn gen_case(c: &mut C10, rng: &mut Rng) {
                 // never cross an epoch boundary with a side branch unless the F9 shape is wanted
                 let pn = c.ex.ablocks[&p].number;
                 if f9 || (pn + 1) % l != 0 {
-                    g.build(&mut c.ex, rng, p, false);
+                    c.build(&mut g, rng, p, false);
                     if c.ex.tip_id() != tip {
                         continue;
                     }
                 }
             }
-            g.build(&mut c.ex, rng, tip, true);
+            c.build(&mut g, rng, tip, true);
             if restart_heavy && round > 0 && rng.chance(1, 2) {
                 c.apply("restart");
                 c.ex.out_count("restart_between_blocks");
@@ -715,7 +778,7 @@ fn gen_case(c: &mut C10, rng: &mut Rng) {
                 }
                 let p = c.ex.ancestor(tip, tipn - (hgt - 1));
                 let busy = rng.chance(1, 2);
-                g.build(&mut c.ex, rng, p, busy);
+                c.build(&mut g, rng, p, busy);
                 assert_eq!(c.ex.tip_id(), tip, "a late side block must stay lighter than the tip");
                 c.ex.out_count(if hgt + 1 == frozen {
                     "late_side_block_at_last_frozen_height"
@@ -822,7 +885,7 @@ pub fn run(opts: &Opts) {
     {
         let mut ex = Exec::new(&mut out, base.clone());
         ex.ancient = true;
-        let mut c = C10 { ex, baseline: BTreeMap::new(), frozen_seen: 0, warm: false };
+        let mut c = C10 { ex, baseline: BTreeMap::new(), frozen_seen: 0, warm: false, deep: None };
         if let Some(rp) = &opts.replay {
             for l in read_replay_ops(rp) {
                 if l.starts_with("case ") {
@@ -830,6 +893,7 @@ pub fn run(opts: &Opts) {
                     c.baseline.clear();
                     c.frozen_seen = 0;
                     c.warm = false;
+                    c.deep = None;
                     c.ex.begin_case(&label);
                 } else {
                     if c.ex.case_no == 0 {
